@@ -20,6 +20,7 @@ func h12CheckNode(e *Entry, ro bool, ns string, what string) {
 
 func H12() {
 	hcSlim = param("slim") == 1
+	hcNoCfg = false
 	sc := hcGenerate(param("n"))
 	note(sc.texts[0] + sc.texts[1] + sc.texts[2] + sc.texts[3] + sc.texts[4])
 	ms, lerrs := hLoad(sc.texts...)
